@@ -31,6 +31,7 @@ func run(c *vh.Ctx) error {
 	pf := c.NewCaseFile("parse", header)
 	pf.Func, pf.Type = "pmismatches", "pcase"
 
+	coqEvery, coqCount := 1, 0 // thinning of the Coq cases of the second-round families in the quick tier
 	idCase := func(b []byte, class string, expect *int64, nontrivial bool) obs {
 		rp := replay{Kind: "id", Hex: vh.Hex(b)}
 		c.Begin(rp)
@@ -43,7 +44,10 @@ func run(c *vh.Ctx) error {
 			return o
 		}
 		rp.Obs = o
-		cf.Add(o.coq(b), rp)
+		coqCount++
+		if coqEvery <= 1 || coqCount%coqEvery == 0 {
+			cf.Add(o.coq(b), rp)
+		}
 		// monitor: the id is the first element (oracle: we built the list)
 		if expect != nil {
 			switch {
@@ -67,18 +71,36 @@ func run(c *vh.Ctx) error {
 	}
 
 	// ---- (a)+(b): tagged shapes -------------------------------------------------
-	fams := families()
+	fams := append(families(), families2()...)
 	rounds := c.Pick(1, 6)
-	for _, fam := range fams {
+	nFirst := len(families())
+	for fi, fam := range fams {
+		coqEvery = 1
+		if fi >= nFirst && !c.Thorough() {
+			coqEvery = 4
+		}
+		done := map[uint64]bool{}
+		exercised := map[uint64]bool{}
 		for _, sh := range fam.shapes {
-			// baseline: minimal encoding must decode, otherwise the shape itself is wrong
-			base := tagged(vh.Fimm, vh.MinForm(sh.id), sh.id, sh.rest).Enc()
-			baseVar, err := fam.decode(base)
-			if err != nil {
-				c.Res.Count(vh.Hex(base), false, "shape-rejected:"+fam.name)
-				c.Res.Notes = append(c.Res.Notes, fmt.Sprintf("%s shape id=%d rejected in minimal form: %v", fam.name, sh.id, err))
+			if fam.firstAccepted && done[sh.id] {
 				continue
 			}
+			// baseline: minimal encoding must decode, otherwise the shape itself is wrong
+			base := fam.full(tagged(vh.Fimm, vh.MinForm(sh.id), sh.id, sh.rest))
+			var baseVar string
+			var err error
+			if pan, pv := vh.Recover(func() { baseVar, err = fam.decode(base) }); pan {
+				err = fmt.Errorf("panic: %v", pv)
+			}
+			if err != nil || (fam.firstAccepted && baseVar != fam.spec[sh.id]) {
+				if !fam.firstAccepted {
+					c.Res.Count(vh.Hex(base), false, "shape-rejected:"+fam.name)
+					c.Res.Notes = append(c.Res.Notes, fmt.Sprintf("%s shape id=%d rejected in minimal form: %v", fam.name, sh.id, err))
+				}
+				continue
+			}
+			done[sh.id] = true
+			exercised[sh.id] = true
 			for _, of := range outerForms {
 				for _, idf := range intForms(sh.id) {
 					for r := 0; r < rounds; r++ {
@@ -100,9 +122,10 @@ func run(c *vh.Ctx) error {
 						c.Begin(rp)
 						var got string
 						var derr error
-						pan, pv := vh.Recover(func() { got, derr = fam.decode(b) })
+						pan, pv := vh.Recover(func() { got, derr = fam.decode(fam.full(it)) })
 						want := fam.spec[sh.id]
 						o.Variant = got
+						c.Res.Distribution["family:"+fam.name]++
 						c.Res.Sample(map[string]any{"family": fam.name, "hex": o.Hex, "header": formName[of], "id_form": formName[idf], "id": sh.id, "variant": got})
 						switch {
 						case pan:
@@ -119,8 +142,19 @@ func run(c *vh.Ctx) error {
 				}
 			}
 		}
+		var missing []uint64
+		for _, id := range ids(fam.spec) {
+			if !exercised[id] {
+				missing = append(missing, id)
+			}
+		}
+		if len(missing) > 0 {
+			c.Res.Distribution["unexercised-ids:"+fam.name] += len(missing)
+			c.Res.Notes = append(c.Res.Notes, fmt.Sprintf("%s: no payload accepted in minimal form for ids %v (variant not monitored for them; DecodeIdFromList itself is covered by the family-independent cases)", fam.name, missing))
+		}
 	}
 
+	coqEvery = 1
 	// ---- (a): error behaviour and corner inputs ---------------------------------
 	neg := int64(-1)
 	corpus := []string{
@@ -338,11 +372,15 @@ func doReplay(c *vh.Ctx, idCase func([]byte, string, *int64, bool) obs) error {
 	}
 	idCase(b, hdr, exp, true)
 	if rp.Kind == "variant" {
-		for _, fam := range families() {
+		for _, fam := range append(families(), families2()...) {
 			if fam.name != rp.Fam {
 				continue
 			}
-			got, derr := fam.decode(b)
+			full := b
+			if it, _, perr := vh.ParseItem(b); perr == nil {
+				full = fam.full(it)
+			}
+			got, derr := fam.decode(full)
 			want := ""
 			if exp != nil && *exp >= 0 {
 				want = fam.spec[uint64(*exp)]
